@@ -14,7 +14,7 @@ Spec: spec/Defs.tla (+ MC_C02, MC_C02_expr, Trace_C02); independent reference: d
 
 import json
 
-from common import MachineryFailure
+from common import NCPU, MachineryFailure
 
 import c02_data
 
@@ -102,6 +102,63 @@ def _run_expr(cx, cfg, label, simulate=None, depth=None):
     return cases, [names[s] for s in sorted(names)]
 
 
+def _plain(cx, case, toks):
+    import impl_c02
+
+    tree, _ = impl_c02._parse(toks)
+    return impl_c02.render(tree, case["names"], case["coefs"], case["exps"], 1)
+
+
+def _run_reg(cx, cfg, label):
+    ck = cx.ck
+    res = ck.tlc("MC_C02_reg", cfg, env={ENV: cx.path}, workers=1, label=label, timeout=3000, required_actions=("Next",))
+    cases = []
+    for r in res.by_tag("HIST"):
+        c = {k: r[k] for k in ("sys", "h", "probes", "pairs", "snap", "names", "coefs", "exps")}
+        c["kind"] = "reg"
+        cases.append(c)
+    if len(cases) < 50:
+        raise MachineryFailure("too few registry histories exported")
+    return cases
+
+
+def _validate_reg(cx, cases, obs, label):
+    ck = cx.ck
+    bad = [o for o in obs if "_error" in o]
+    if bad:
+        raise MachineryFailure("replay error: " + str(bad[0])[:1500])
+    CH = 3000
+    for off in range(0, len(obs), CH):
+        part = obs[off : off + CH]
+        path = ck.write_json(f"c02_regobs_{label}_{off}.json", part)
+        res = ck.tlc("Trace_C02_reg", "Trace_C02_reg", env={ENV: cx.path, "C02REGOBS": path}, workers=1, coverage=False, label=f"trace validation {label} [{off}:{off + len(part)}]", timeout=2400)
+        if res.distinct != len(part) + 1:
+            raise MachineryFailure(f"trace validation consumed {res.distinct} states, expected {len(part) + 1}")
+        ck.validated(len(part))
+        if res.by_tag("ECHO-FAIL"):
+            raise MachineryFailure("registry replay looked at other probes/pairs than TLC derives: " + str(res.by_tag("ECHO-FAIL")[0]))
+        for r in res.by_tag("T-FAIL") + res.by_tag("P-FAIL"):
+            o = part[r["i"] - 1]
+            case = cases[off + r["i"] - 1]
+            calls = [f"{e['op']}({e['sym']}@{o['sys'][e['r'] - 1]}#{e['r']}, {e['form']})" for e in o["h"]]
+            d = r["detail"] if isinstance(r["detail"], dict) else {}
+            if r["clause"].startswith("reg-convert"):
+                q = o["pairs"][r["idx"] - 1]
+                key = {"part": "registry", "clause": r["clause"], "kind": q["k"], "route": d.get("route", ""), "from": f"{q['ta']}#{q['r1']}@{q['w1']}", "to": f"{q['tb']}#{q['r2']}@{q['w2']}"}
+                detail = {"calls": calls, "scale_from": q.get("s1"), "scale_to": q.get("s2"), "scale_ratio": q.get("want"), "routes": q.get("routes")}
+            elif r["clause"] in ("reg-scale", "reg-dimension", "reg-probe-raises"):
+                p = o["probes"][r["idx"] - 1]
+                key = {"part": "registry", "clause": r["clause"], "system": d.get("system", o["sys"][p["r"] - 1]), "route": d.get("route", ""), "expr": p["text"]}
+                detail = {"calls": calls, "base_value": p.get("bv"), "definition_implies": p.get("want"), "exc": p.get("exc"), "tlc": d}
+            else:
+                key = {"part": "registry", "clause": r["clause"]}
+                detail = {"calls": calls, "tlc": d}
+            if r["tag"] == "T-FAIL":
+                ck.drift_step(r["clause"], {"key": key, "detail": detail})
+            else:
+                ck.violation(key, detail, case=case)
+
+
 def run(ck):
     ck.level = "model_checking"
     ck.assumptions += [
@@ -129,17 +186,57 @@ def run(ck):
         if case.get("kind") == "table":
             _structure(cx)
             return
+        if case.get("kind") == "reg":
+            robs = ck.pmap("impl_c02", "observe", [case], nproc=1)
+            _validate_reg(cx, [case], robs, "replay")
+            return
         _replay(cx, [case], "replay")
         return
 
     counts = {}
     thorough = ck.tier != "quick"
 
-    # ---- one TLC run: DAG structure, every name spelling, prefix x prefixable symbol, pairs sharing a dimension
+    # ---- the generating TLC runs are independent of each other: run them side by side
+    import concurrent.futures as cf
+
     stride = ck.q(13, 1)
-    cfg = _cfg(ck, "MC_C02_allt" if thorough else "MC_C02_all", "MC_C02_all_run", {"Stride": stride, "Phase": ck.seed % stride})
-    res = ck.tlc("MC_C02", cfg, env={ENV: cx.path}, workers=1, timeout=3000, required_actions=["NextDefs", "NextNames", "NextPrefix", "NextConv"],
-                 label=f"definitional DAG x table; cases: every name spelling, prefix x prefixable symbol, pairs of names sharing a dimension (1 of {stride})")
+    mod = 480
+    npools = ck.q(3, 24)
+    sels = sorted({(ck.seed * 7919 + j * 37 + 11) % mod for j in range(npools)})
+    selset = "{" + ", ".join(str(x) for x in [mod] + sels) + "}"
+
+    def gen_all():
+        cfg = _cfg(ck, "MC_C02_allt" if thorough else "MC_C02_all", "MC_C02_all_run", {"Stride": stride, "Phase": ck.seed % stride})
+        return ck.tlc("MC_C02", cfg, env={ENV: cx.path}, workers=1, timeout=3000, required_actions=["NextDefs", "NextNames", "NextPrefix", "NextConv"],
+                      label=f"definitional DAG x table; cases: every name spelling, prefix x prefixable symbol, pairs of names sharing a dimension (1 of {stride})")
+
+    def gen_expr3():
+        cfg = _cfg(ck, "MC_C02_expr", "MC_C02_expr_run", {"Sels": selset})
+        return _run_expr(cx, cfg, f"expressions: all trees <= 3 tokens over {len(sels) + 1} alphabets (fixed + every {mod}th name from {sels[:4]}...)")
+
+    def gen_expr4():
+        cfg = _cfg(ck, "MC_C02_expr", "MC_C02_expr_run4", {"Sels": "{" + str(mod) + "}", "MaxTok": 4, "MaxStack": 3})
+        return _run_expr(cx, cfg, "expressions: all trees <= 4 tokens, fixed alphabet")
+
+    def gen_exprsim():
+        cfg = _cfg(ck, "MC_C02_expr_sim", "MC_C02_expr_simrun", {"Sels": selset})
+        return _run_expr(cx, cfg, "expressions: simulated to 11 tokens (<= 4 operands on the stack)", simulate=ck.q(300, 4000), depth=14)
+
+    def gen_reg(cfgname, label):
+        def go():
+            return _run_reg(cx, cfgname, label)
+
+        return go
+
+    jobs = {"all": gen_all, "expr3": gen_expr3, "exprsim": gen_exprsim,
+            "reg": gen_reg("MC_C02_reg_t" if thorough else "MC_C02_reg", "user registries: histories <= 3 calls (define_unit tuple/quantity, add, modify) over 2 registries x unit systems, one witness per state"),
+            "regqux": gen_reg("MC_C02_reg_qux", "user registries: symbol qux defined over user symbol foo, then foo modified; histories <= 3")}
+    if thorough:
+        jobs["expr4"] = gen_expr4
+    with cf.ThreadPoolExecutor(max_workers=max(1, min(len(jobs), NCPU))) as pool:
+        futs = {k: pool.submit(f) for k, f in jobs.items()}
+        done = {k: f.result() for k, f in futs.items()}
+    res = done["all"]
     _structure(cx, res)
     cases = []
     unread = []
@@ -172,23 +269,14 @@ def run(ck):
     cases += pfx + conv + conva
 
     # ---- compound expressions: all trees to a token bound + simulated deeper ones, over several alphabets
-    mod = 480
-    npools = ck.q(3, 24)
-    sels = sorted({(ck.seed * 7919 + j * 37 + 11) % mod for j in range(npools)})
-    selset = "{" + ", ".join(str(x) for x in [mod] + sels) + "}"
     ecases = []
     alphabets = []
-    cfg = _cfg(ck, "MC_C02_expr", "MC_C02_expr_run", {"Sels": selset})
-    c, a = _run_expr(cx, cfg, f"expressions: all trees <= 3 tokens over {len(sels) + 1} alphabets (fixed + every {mod}th name from {sels[:4]}...)")
-    ecases += c
-    alphabets += a
-    if thorough:
-        cfg = _cfg(ck, "MC_C02_expr", "MC_C02_expr_run4", {"Sels": "{" + str(mod) + "}", "MaxTok": 4, "MaxStack": 3})
-        c, a = _run_expr(cx, cfg, "expressions: all trees <= 4 tokens, fixed alphabet")
-        ecases += c
-    cfg = _cfg(ck, "MC_C02_expr_sim", "MC_C02_expr_simrun", {"Sels": selset})
-    c, a = _run_expr(cx, cfg, "expressions: simulated to 11 tokens (<= 4 operands on the stack)", simulate=ck.q(300, 4000), depth=14)
-    ecases += c
+    for k in ("expr3", "expr4", "exprsim"):
+        if k in done:
+            c, a = done[k]
+            ecases += c
+            if k == "expr3":
+                alphabets += a
     seen = set()
     uniq = []
     for c in ecases:
@@ -201,15 +289,35 @@ def run(ck):
     counts["expressions"] = len(ecases)
     cases += ecases
 
+    # ---- user registries
+    rcases = []
+    rseen = set()
+    for k in ("reg", "regqux"):
+        for c in done[k]:
+            sig = json.dumps([c["sys"], [[e[f] for f in ("op", "r", "sym", "t", "c", "form", "pfx")] for e in c["h"]]])
+            if sig not in rseen:
+                rseen.add(sig)
+                rcases.append(c)
+    counts["registry_histories"] = len(rcases)
+    counts["registry_probes"] = sum(len(c["probes"]) for c in rcases)
+    counts["registry_conversion_pairs"] = sum(len(c["pairs"]) for c in rcases)
+
     # ---- replay everything in the real library, then TLC evaluates P and T on the observations
-    obs = _replay(cx, cases, "all")
+    allobs = cx.ck.pmap("impl_c02", "observe", cases + rcases, chunk_timeout=6000)
+    obs, robs = allobs[: len(cases)], allobs[len(cases) :]
+    with cf.ThreadPoolExecutor(max_workers=2) as pool:
+        f1 = pool.submit(_validate, cx, cases, obs, "all")
+        f2 = pool.submit(_validate_reg, cx, rcases, robs, "registries")
+        f1.result()
+        f2.result()
+    nontrivial_reg = sum(1 for c, o in zip(rcases, robs) if any(e["op"] in ("define", "add", "modify") and e["ok"] for e in o["h"]))
     byk = {}
     for c, o in zip(cases, obs):
         byk.setdefault(c["kind"], []).append((c, o))
     rejected = [c["name"] for c, o in byk["name"] if not o["ok"]]
     counts["names_not_accepted_by_Unit"] = len(rejected)
     ck.cov["names_not_accepted_sample"] = rejected[:12]
-    nontrivial = sum(1 for c, o in byk["name"] if o["ok"]) + sum(1 for c, o in byk["pfx"] if o["ok"]) + sum(1 for c, o in byk["conv"] if o["ok"] and c["n1"] != c["n2"])
+    nontrivial = nontrivial_reg + sum(1 for c, o in byk["name"] if o["ok"]) + sum(1 for c, o in byk["pfx"] if o["ok"]) + sum(1 for c, o in byk["conv"] if o["ok"] and c["n1"] != c["n2"])
     eo = byk["expr"]
     counts["expressions_accepted_string"] = sum(1 for c, o in eo if o["s"]["ok"])
     counts["expressions_accepted_arith"] = sum(1 for c, o in eo if o["a"]["ok"])
@@ -224,11 +332,13 @@ def run(ck):
     c, o = max(eo, key=lambda co: len(co[0]["toks"]))
     ck.sample({"expression": o.get("text"), "meaning_atoms": c["at"], "meaning_coef": c["co"], "Unit(str).base_value": o["s"].get("bv"), "product_of_constituents": o.get("want")})
 
+    c, o = rcases[len(rcases) // 2], robs[len(rcases) // 2]
+    ck.sample({"registries": c["sys"], "calls": [[e["op"], e["r"], e["sym"], e["form"], _plain(cx, c, e["text"]), e["c"]] for e in c["h"]], "probes": [[p["r"], p["text"], p.get("bv")] for p in o["probes"][:6]], "pairs": [[q["k"], q["ta"], q["w1"], q["tb"], q["w2"]] for q in o["pairs"][:4]]})
     ck.cov.update(counts)
     ck.cov["exhaustive"] = stride == 1
     ck.cov["evaluations"] = ck.cov["traces_validated_against_impl"]
     ck.cov["distinct_nontrivial"] = nontrivial
-    ck.cov["rule"] = "cases generated by TLC and replayed: one per name spelling, per prefix x prefixable symbol, per ordered pair of canonical names sharing a dimension (1 of Stride in quick; thorough adds alias spelling x table symbol), per expression tree; non-trivial = accepted by the library and compared (names and prefixed names that resolve; conversions between two different names; expressions with more than one token inside the float range)"
+    ck.cov["rule"] = "cases generated by TLC and replayed: one per name spelling, per prefix x prefixable symbol, per ordered pair of canonical names sharing a dimension (1 of Stride in quick; thorough adds alias spelling x table symbol), per expression tree, per registry history (two registries x unit systems; define_unit / add / modify; probes and conversion pairs through 7-8 routes); non-trivial = accepted by the library and compared (names and prefixed names that resolve; conversions between two different names; expressions with more than one token inside the float range)"
 
 
 def _structure(cx, res=None):
